@@ -4,5 +4,5 @@ from . import pjaxr
 EXPLANATION = ("Ownership of the process-global key counter, escape analysis of the keyless sampler and of the Seed interpreter, the sampling branch "
                "of Seed (no re-bind; output from the flat keyful sampler and a fresh sub-key), key linearity, staged-sampler cache key, dispatch-set agreement.")
 RULES = [pjaxr.seed_wrapper_plumbing, pjaxr.counter_ownership, pjaxr.seed_sample_branch_events, pjaxr.seed_fresh_interpreter, pjaxr.flat_cache_key, pjaxr.flat_sampler_staging, pjaxr.dispatch_sets_events,
-         pjaxr.key_linearity_events, pjaxr.nested_jaxpr_seeded_events, pjaxr.seed_fallthrough_events]
+         pjaxr.key_linearity_events, pjaxr.nested_jaxpr_seeded_events, pjaxr.seed_fallthrough_events, pjaxr.sample_transform_rules]
 FLOOR = 10
